@@ -736,6 +736,19 @@ def check_oracles(w):
                                    {"flow": f, "dst_produced": dst.produced, "planned": d_plan["data"],
                                     "delivered": len(app.wr), "app_closed_first": app.eof_seen,
                                     "finding_id": "F22" if f22 else None}))
+    # F20: at quiescence a finished flow (all four flags set, buffers empty) still has its handler
+    if getattr(w, "calm", 0) >= 3 and not w.crash:
+        for side in ("c", "s"):
+            hs = w.handlers[side]
+            for f, p in enumerate(w.prox[side]):
+                if p not in hs:
+                    continue
+                sw = p.wrap1 if side == "c" else p.wrap2
+                mw = p.wrap2 if side == "c" else p.wrap1
+                if (sw.shut_read and sw.shut_write and mw.shut_read and mw.shut_write and not sw.buf and not mw.buf):
+                    out["C02"].append(("quiescent, yet a finished flow still has its handler (and its socket): "
+                                       "the last flag was set by pre_select, no callback follows",
+                                       {"side": side, "flow": f, "ok": bool(p.ok), "finding_id": "F20"}))
     if w.crash and not any(d.get("connect", [""])[-1] == "x" for _, d in w.case["flows"]):
         out["C08"].append(("an event loop died: %s" % w.crash, {"exception": w.crash}))
     for side in ("c", "s"):
@@ -778,6 +791,21 @@ STREAM_ASSUMPTIONS = [
 ]
 
 
+# deterministic cases that are always run first (known findings are re-confirmed on every run)
+EXTRA_CASES = {
+    "C02": [
+        # F22: data-less half-close reaching the server while the connect is pending
+        {"profile": "close", "seed": 22, "maxc": 65535, "lbs": 32768, "latency": True, "iters": 80,
+         "flows": [({"tag": 1, "data": 0, "close": True, "p_recv": 1.0},
+                    {"tag": 2, "data": 300, "close": True, "connect": ["p"] * 60 + ["d"]})]},
+        # F20: the application resets right after connecting; the server end lingers
+        {"profile": "close", "seed": 20, "maxc": 65535, "lbs": 32768, "latency": True, "iters": 60,
+         "flows": [({"tag": 1, "data": 0, "close": False, "fault": ("recv", 0, 104), "faulty": True},
+                    {"tag": 2, "data": 0, "close": False, "connect": ["d"]})]},
+    ],
+}
+
+
 def stream_check(ctx, prop, profiles, n_quick, n_thorough):
     """run generated cases of the given profiles; report oracle violations of `prop`"""
     import random
@@ -800,9 +828,11 @@ def stream_check(ctx, prop, profiles, n_quick, n_thorough):
                 if p2 != prop and lst:
                     ctx.count("other_property_alarm_%s" % p2, len(lst))
         del batch[:]
-    for i in range(n):
+    extra = list(EXTRA_CASES.get(prop, []))
+    for i in range(n + len(extra)):
         profile = profiles[i % len(profiles)]
-        case = gen_case(rng, profile, ctx.quick())
+        case = extra.pop(0) if extra else gen_case(rng, profile, ctx.quick())
+        profile = case["profile"]
         w = run_case(ctx, case)
         nflows = len(w.prox["c"])
         ctx.count("profile_" + profile)
